@@ -1558,3 +1558,32 @@ package bpmn
 //@   pattern rowCount(A, lo, n, x)
 //@   requires exists i int :: 0 <= i && i < n && A[lo + i] == x
 //@   ensures rowCount(A, lo, n, x) >= 1
+
+// The sub-process's inner completion monitor (same protocol as the process's, C02): the inner cease-flow trace is sent
+// at most once, last, only after every inner start event was seen firing and the inner tokens' wait returned.
+//@ func (*subProcess).ceaseFlowMonitor$1
+//@   prop C12 C07
+//@   recvinv FlowTrace: is(msg.Source, *schema.StartEvent) ==> msg.Source.(*schema.StartEvent) != nil
+//@   recvinv TerminationTrace: is(msg.Source, *schema.StartEvent) ==> msg.Source.(*schema.StartEvent) != nil
+//@   flag entrylocks
+//@   flag lockeffect
+//@   requires held(mu(sp.complete)) == 2
+//@   ensures [completion-lock-released-on-every-exit] held(mu(sp.complete)) == 0
+//@   ensures [at-most-one-cease-flow-trace] count(Trace, CeaseFlowTrace) <= old(count(Trace, CeaseFlowTrace)) + 1
+//@   ensures [cease-flow-only-after-all-tokens-are-gone] count(Trace, CeaseFlowTrace) == old(count(Trace, CeaseFlowTrace)) + 1 ==>
+//@             isTrace(ev(evlen - 2)) && is(evval(ev(evlen - 2)), CeaseFlowTrace) && isRecv(ev(evlen - 3)) && evch(ev(evlen - 3)) != ctxdone(ctx) &&
+//@             count(Spawn, code("(*subProcess).ceaseFlowMonitor$1$1")) == old(count(Spawn, code("(*subProcess).ceaseFlowMonitor$1$1"))) + 1
+//@   ensures [sender-released-last] isCall(ev(evlen - 1)) && evch(ev(evlen - 1)) == code("tracing|ISenderHandle.Done")
+//@   loop 1 for
+//@     invariant held(mu(sp.complete)) == 2 && count(Trace, CeaseFlowTrace) == old(count(Trace, CeaseFlowTrace)) &&
+//@               count(Spawn, code("(*subProcess).ceaseFlowMonitor$1$1")) == old(count(Spawn, code("(*subProcess).ceaseFlowMonitor$1$1")))
+//@     invariant [only-start-events-that-fired-are-counted] forall a int :: off(startEventsActivated) <= a && a < off(startEventsActivated) + len(startEventsActivated) ==> at(startEventsActivated, a) != nil
+//@     exit ensures [every-start-event-seen-before-waiting-for-tokens] len(startEventsActivated) == len(*sp.element.StartEvents())
+
+// The waiter inside the monitor: closes its channel only after the wait group of tokens drained.
+//@ func (*subProcess).ceaseFlowMonitor$1$1
+//@   prop C12
+//@   closureinv waitIsOver != nil
+//@   requires !closed(waitIsOver)
+//@   ensures [closes-only-after-the-wait-returned] evlen == old(evlen) + 2 && isWgWait(ev(old(evlen))) && evch(ev(old(evlen))) == sp.flowWaitGroup &&
+//@             isClose(ev(old(evlen) + 1)) && evch(ev(old(evlen) + 1)) == waitIsOver
